@@ -303,6 +303,11 @@ class Interp:
 
     def st_AugAssign(self, s, env):
         op = BINOPS.get(type(s.op))
+        if op is None and isinstance(s.op, (ast.BitOr, ast.BitAnd)):
+            cur = self.eval(s.target, env)
+            rhs = self.eval(s.value, env)
+            self.assign(s.target, self.bitop(type(s.op), cur, rhs), env)
+            return
         if op is None:
             raise Unsupported('augmented operator')
         t = s.target
@@ -1389,6 +1394,10 @@ class Interp:
                 return base.elem(idx)
         if isinstance(base, SObj):
             return self.call_method(base, '__getitem__', [idx], {})
+        if isinstance(base, ArrFlat):
+            if base.arr.ndim == 1:
+                return self.arr_getitem(base.arr, idx)
+            raise Unsupported('.flat read of n-d array')
         if isinstance(base, SCompact):
             raise Unsupported('index into compaction')
         if isinstance(base, Opaque):
@@ -1707,10 +1716,26 @@ class Interp:
         if isinstance(fv, PyMethod):
             return self.call_pymethod(fv.obj, fv.name, args, kwargs)
         if isinstance(fv, ClassRef):
-            raise Unsupported('construction of %s' % fv.name)
+            return self.construct(fv, args, kwargs)
         if isinstance(fv, Opaque):
             raise Unsupported('call of opaque %s' % fv.name)
         raise Unsupported('call of %r (%s)' % (fv, ftxt))
+
+    def construct(self, cref, args, kwargs):
+        """Instantiate a repo class whose __init__ is listed in `inline` (plain attribute setup)."""
+        c = self.contract
+        if cref.mod is None or c is None or not (cref.name in c.inline or (cref.name + '.__init__') in c.inline):
+            raise Unsupported('construction of %s (list the class in inline to allow it)' % cref.name)
+        obj = SObj(cref.name, {})
+        self.CLASS_HOME.setdefault(cref.name, cref.mod.relpath)
+        r = extract.resolve_method(cref.mod, cref.name, '__init__', self.overrides)
+        if r is not None:
+            mod, fn, cname = r
+            self.inlined.append(('%s::%s.__init__' % (mod.relpath, cname), extract.source_hash(mod, fn)))
+            self.run_function(mod, cname, fn, [obj] + list(args), kwargs)
+        elif args or kwargs:
+            raise PyRaise('TypeError')
+        return obj
 
     def invoke_user(self, mod, cname, fn, args, kwargs, ftxt):
         r = self._invoke_user(mod, cname, fn, args, kwargs, ftxt)
